@@ -83,6 +83,20 @@ def remove_redundant_iter(source: str) -> str:
 def remove_redundant_chained_calls(source: str) -> str:
     root = core.parse(source)
 
+    # The calls are recognised by name: not when the file gives one of the names another meaning
+    builtin_names = ("sorted", "list", "set", "iter", "tuple", "sum", "reversed")
+    rebinding = (
+        ast.Name(id=builtin_names, ctx=(ast.Store, ast.Del)),
+        ast.arg(arg=builtin_names),
+        ast.FunctionDef(name=builtin_names),
+        ast.AsyncFunctionDef(name=builtin_names),
+        ast.ClassDef(name=builtin_names),
+        ast.alias(name=builtin_names, asname=None),
+        ast.alias(asname=builtin_names),
+    )
+    if any(True for _ in core.walk(root, rebinding)):
+        return
+
     # If outer is present, inner is redundant
     outer_inner_redundancy_mapping = {
         "sorted": {"list", "sorted", "tuple", "iter", "reversed"},
